@@ -3,6 +3,7 @@
 package sftp
 
 import (
+	"context"
 	"errors"
 	"io"
 	"os"
@@ -237,4 +238,74 @@ func vh_C07_reqserver_mutated() {
 	}
 	vAssert(got <= want, "RequestServer: a malformed frame (or anything after it) is never dispatched")
 	vAssert(got == want, "RequestServer: every well-formed request before it is dispatched")
+}
+
+// ---- loop + worker: whatever the loop dispatches, the worker answers without
+// panicking (unknown types, unknown extended requests, bogus handles, ...);
+// the workers run after the loop, on the channel it filled (added after seeded
+// change C07-c)
+
+func vN7w() int {
+	if vThorough() {
+		return 22
+	}
+	return 18
+}
+
+func vh_C07_reqserver_loop_worker() {
+	data := vNondetBytesC(vN7w())
+	vConsumed(len(data))
+	rs := vNewRequestServer(Handlers{vH{}, vH{}, vH{}, vH{}}, "/")
+	rs.serverConn.conn.Reader = &vReader{data: data}
+	ch := make(chan orderedRequest, 16)
+	rs.serveLoop(ch)
+	got := len(ch)
+	rs.pktMgr.requests = make(chan orderedPacket, 16)
+	rs.pktMgr.responses = make(chan orderedPacket, 16)
+	pending := make([]orderedRequest, 0, got)
+	for p := range ch {
+		pending = append(pending, p)
+	}
+	ch2 := make(chan orderedRequest, 16)
+	for _, p := range pending {
+		rs.pktMgr.incomingPacket(p)
+		ch2 <- p
+	}
+	close(ch2)
+	err := rs.packetWorker(context.Background(), ch2)
+	vAssert(err == nil, "RequestServer: the worker survives every dispatched packet")
+	vAssert(len(rs.pktMgr.responses) == got, "RequestServer: one response per dispatched packet")
+	vEmit("got", got)
+}
+
+//verif:redirect (*github.com/pkg/sftp.packetManager).workerChan vStubWorkerChan
+func vh_C07_server_loop_worker() {
+	data := vNondetBytesC(vN7w())
+	want, _ := vWellFormedPrefix(data)
+	if !vSymbolic() {
+		vNativeServe(data, want, "Server")
+		return
+	}
+	vConsumed(len(data))
+	svr := vNewServer(false, "")
+	svr.serverConn.conn.Reader = &vReader{data: data}
+	svr.openFiles["1"] = &vMFile{name: "/o"}
+	svr.pktMgr.requests = make(chan orderedPacket, 16)
+	svr.pktMgr.responses = make(chan orderedPacket, 16)
+	// Serve: the loop fills vDispatched and closes it; run the worker on it afterwards
+	svr.Serve()
+	got := len(vDispatched)
+	pending := make([]orderedRequest, 0, got)
+	for p := range vDispatched {
+		pending = append(pending, p)
+	}
+	ch2 := make(chan orderedRequest, 16)
+	for _, p := range pending {
+		svr.pktMgr.incomingPacket(p)
+		ch2 <- p
+	}
+	close(ch2)
+	err := svr.sftpServerWorker(ch2)
+	vAssert(err == nil, "Server: the worker survives every dispatched packet")
+	vAssert(len(svr.pktMgr.responses) == got, "Server: one response per dispatched packet")
 }
